@@ -35,6 +35,8 @@ def jobs(tier):
         add(graph="gc-balanced-2", n=4, start=7, has_indel=False, heap_size=1, nvt=2)
         add(graph="mixed-2", n=4, start=0, has_indel=True, heap_size=1e9, nvt=0)
         add(graph="mixed-2", n=4, start=5, has_indel=True, heap_size=1e9, nvt=0)
+        add(graph="no-repeat-3", n=3, start=6, has_indel=True, heap_size=1e9, nvt=0)
+        add(graph="no-repeat-3", n=4, start=27, has_indel=True, heap_size=1e9, nvt=0)
     else:
         for n in range(1, 7):
             add(graph="complete-1", n=n, start=0, has_indel=True, heap_size=1e9, nvt=0)
